@@ -1,7 +1,8 @@
 /-
 Helper lemmas for C07 (content-addressed store).  The invariant `Inv` is shown to hold at
-every micro-step boundary of the regenerated update program, by executing each crash prefix
-`program.take k` symbolically, and then along every history by induction over the operation list.
+every micro-step boundary of the regenerated update program in both configurations (staging on
+the store's file system / on another one), by executing every crash budget symbolically
+(`runUpd_closed`), and then along every history by induction over the operation list.
 -/
 import DawgieVerif.Model.Blob
 import DawgieVerif.Generated.Blob
@@ -10,16 +11,19 @@ namespace DawgieVerif.Blob
 open DawgieVerif.Generated.Blob
 
 set_option linter.unusedSectionVars false
+set_option linter.unusedSimpArgs false
 
 variable {K N C : Type} [DecidableEq K] [DecidableEq N]
 
 /-- The store invariant: file names are unique, every stored file is named by the digest of its
-    content, every prime value names a stored file, staged names are below the `mkstemp` counter. -/
+    content, every prime value names a stored file, staged and incoming names are below the
+    `mkstemp` counter. -/
 structure Inv (h : C → N) (s : St K N C) : Prop where
   nodup : (names s).Nodup
   digest : ∀ b ∈ s.store, b.1 = h b.2
   linked : ∀ p ∈ s.prime, p.2 ∈ names s
   below : ∀ f ∈ s.stage, f.1 < s.fresh
+  belowInc : ∀ f ∈ s.incoming, f.1 < s.fresh
 
 theorem inv_init (h : C → N) : Inv h (init : St K N C) := by
   constructor <;> simp [init, names]
@@ -38,9 +42,9 @@ theorem rm_of_fresh {B : Type} {d : List (Nat × B)} {f : Nat} (hb : ∀ p ∈ d
   have := hb p hp
   simp; omega
 
-theorem lookup_put {A B : Type} [DecidableEq A] (d : List (A × B)) (f : A) (b : B) :
-    (put d f b).lookup f = some b := by
-  simp [put]
+@[simp] theorem rm_cons_self {A B : Type} [DecidableEq A] (d : List (A × B)) (f : A) (b : B) :
+    rm ((f, b) :: d) f = rm d f := by
+  simp [rm]
 
 theorem map_fst_rm_nodup {A B : Type} [DecidableEq A] {d : List (A × B)} {f : A}
     (hn : (d.map Prod.fst).Nodup) : ((rm d f).map Prod.fst).Nodup := by
@@ -60,49 +64,54 @@ theorem mem_fst_put {A B : Type} [DecidableEq A] {d : List (A × B)} {f g : A} {
     obtain ⟨p, hp, rfl⟩ := List.mem_map.mp hg
     exact List.mem_map.mpr ⟨p, mem_rm.mpr ⟨hp, hfg⟩, rfl⟩
 
-/-! ### the three disk-changing effects preserve the invariant -/
+/-! ### every boundary state has this shape -/
 
-/-- writing a staged file (mkstemp / dump) below the counter -/
-theorem inv_stage {h : C → N} {s : St K N C} (hs : Inv h s) (st : List (Nat × C)) (fr : Nat)
-    (hb : ∀ f ∈ st, f.1 < fr) : Inv h { s with stage := st, fresh := fr } :=
-  ⟨hs.nodup, hs.digest, hs.linked, hb⟩
-
-/-- renaming a file whose content hashes to `n` into the store under the name `n` -/
-theorem inv_rename {h : C → N} {s : St K N C} (hs : Inv h s) (n : N) (body : C) (hn : n = h body)
-    (st : List (Nat × C)) (hb : ∀ f ∈ st, f.1 < s.fresh) :
-    Inv h { s with stage := st, store := put s.store n body } := by
-  refine ⟨?_, ?_, ?_, hb⟩
-  · show ((put s.store n body).map Prod.fst).Nodup
-    simp only [put, List.map_cons]
-    exact List.nodup_cons.mpr ⟨not_mem_fst_rm _ _, map_fst_rm_nodup hs.nodup⟩
-  · intro b hb'
-    simp only [put, List.mem_cons] at hb'
-    rcases hb' with rfl | hb'
-    · exact hn
-    · exact hs.digest b (mem_rm.mp hb').1
+/-- A state that differs from an invariant state `s` by: staged / incoming files below a larger
+    counter, possibly one more stored file named by the digest of its content, possibly one more
+    prime entry whose value names a stored file. -/
+theorem inv_shape {h : C → N} {s : St K N C} (hs : Inv h s) (c : C) (key : K)
+    (st inc : List (Nat × C)) (sto : List (N × C)) (pr : List (K × N)) (fr : Nat) (dir : Bool)
+    (h1 : ∀ f ∈ st, f.1 < fr) (h2 : ∀ f ∈ inc, f.1 < fr)
+    (h3 : sto = s.store ∨ sto = put s.store (h c) c)
+    (h4 : pr = s.prime ∨ (pr = put s.prime key (h c) ∧ h c ∈ sto.map Prod.fst)) :
+    Inv h ⟨st, inc, sto, pr, fr, dir⟩ := by
+  have hnames : ∀ g ∈ names s, g ∈ sto.map Prod.fst := by
+    intro g hg
+    rcases h3 with rfl | rfl
+    · exact hg
+    · exact mem_fst_put hg
+  refine ⟨?_, ?_, ?_, h1, h2⟩
+  · show (sto.map Prod.fst).Nodup
+    rcases h3 with rfl | rfl
+    · exact hs.nodup
+    · simp only [put, List.map_cons]
+      exact List.nodup_cons.mpr ⟨not_mem_fst_rm _ _, map_fst_rm_nodup hs.nodup⟩
+  · intro b hb
+    rcases h3 with rfl | rfl
+    · exact hs.digest b hb
+    · simp only [put, List.mem_cons] at hb
+      rcases hb with rfl | hb
+      · rfl
+      · exact hs.digest b (mem_rm.mp hb).1
   · intro p hp
-    exact mem_fst_put (hs.linked p hp)
-
-/-- recording a prime entry whose value names a stored file -/
-theorem inv_record {h : C → N} {s : St K N C} (hs : Inv h s) (key : K) (v : N)
-    (hv : v ∈ names s) : Inv h { s with prime := put s.prime key v } := by
-  refine ⟨hs.nodup, hs.digest, ?_, hs.below⟩
-  intro p hp
-  simp only [put, List.mem_cons] at hp
-  rcases hp with rfl | hp
-  · exact hv
-  · exact hs.linked p (mem_rm.mp hp).1
+    show p.2 ∈ sto.map Prod.fst
+    rcases h4 with rfl | ⟨rfl, hin⟩
+    · exact hnames _ (hs.linked p hp)
+    · simp only [put, List.mem_cons] at hp
+      rcases hp with rfl | hp
+      · exact hin
+      · exact hnames _ (hs.linked p (mem_rm.mp hp).1)
 
 theorem inv_del {h : C → N} {s : St K N C} (hs : Inv h s) (key : K) :
     Inv h { s with prime := rm s.prime key } :=
-  ⟨hs.nodup, hs.digest, fun p hp => hs.linked p (mem_rm.mp hp).1, hs.below⟩
+  ⟨hs.nodup, hs.digest, fun p hp => hs.linked p (mem_rm.mp hp).1, hs.below, hs.belowInc⟩
 
 theorem inv_purge {h : C → N} {s : St K N C} (hs : Inv h s) (visit : List N) :
     Inv h (purge s visit) := by
   unfold purge
   split
   · exact hs
-  · refine ⟨?_, ?_, ?_, hs.below⟩
+  · refine ⟨?_, ?_, ?_, hs.below, hs.belowInc⟩
     · exact List.Nodup.sublist (List.Sublist.map _ List.filter_sublist) hs.nodup
     · intro b hb
       exact hs.digest b (List.mem_filter.mp hb).1
@@ -114,50 +123,71 @@ theorem inv_purge {h : C → N} {s : St K N C} (hs : Inv h s) (visit : List N) :
       rw [hbe]
       exact List.mem_map.mpr ⟨p, hp, rfl⟩
 
+/-! ### the regenerated update program, crash budget by crash budget -/
 
-/-! ### the regenerated update program, crash prefix by crash prefix -/
+@[simp] theorem names_mk (a i : List (Nat × C)) (b : List (N × C)) (c : List (K × N)) (d : Nat) (e : Bool) :
+    names (⟨a, i, b, c, d, e⟩ : St K N C) = b.map Prod.fst := rfl
 
-@[simp] theorem names_mk (a : List (Nat × C)) (b : List (N × C)) (c : List (K × N)) (d : Nat) :
-    names (⟨a, b, c, d⟩ : St K N C) = b.map Prod.fst := rfl
+/-- number of micro-steps of an update, by configuration and by whether the digest name exists -/
+def steps (xfs ex : Bool) : Nat := if ex then 8 else if xfs then 13 else 10
 
-/-- closed form of the disk state after the first `k` micro-steps of the update program
-    (proved equal to the interpreter run on `Generated.Blob.program` in `runUpd_closed`) -/
-def after (h : C → N) (e : C) (key : K) (c : C) (s : St K N C) (k : Nat) : St K N C :=
-  let st1 := (s.fresh, e) :: s.stage
-  let st2 := put st1 s.fresh c
-  let store' := if h c ∈ names s then s.store else put s.store (h c) c
-  match k with
+/-- closed forms of the disk state after `b` micro-steps of the update program (proved equal to
+    the interpreter run on `Generated.Blob.program` in `runUpd_closed`): the digest name exists -/
+def afterEx (cfg : Cfg N C) (key : K) (c : C) (s : St K N C) : Nat → St K N C
   | 0 => s
-  | 1 => ⟨st1, s.store, s.prime, s.fresh + 1⟩
-  | 2 | 3 | 4 => ⟨st2, s.store, s.prime, s.fresh + 1⟩
-  | 5 => ⟨rm st2 s.fresh, store', s.prime, s.fresh + 1⟩
-  | _ => ⟨rm st2 s.fresh, store', put s.prime key (h c), s.fresh + 1⟩
+  | 1 => ⟨(s.fresh, cfg.e) :: s.stage, s.incoming, s.store, s.prime, s.fresh + 1, s.dir⟩
+  | 2 | 3 | 4 => ⟨(s.fresh, c) :: s.stage, s.incoming, s.store, s.prime, s.fresh + 1, s.dir⟩
+  | 5 => ⟨s.stage, s.incoming, s.store, s.prime, s.fresh + 1, s.dir⟩
+  | _ => ⟨s.stage, s.incoming, s.store, put s.prime key (cfg.h c), s.fresh + 1, s.dir⟩
 
-/-- Symbolic execution of every crash prefix of the regenerated program. -/
-theorem runUpd_closed (h : C → N) (e : C) (key : K) (c : C) (s : St K N C) (b : Nat) :
-    runUpd h e program key c b s
-      = (after h e key c s b, if 8 ≤ b then some (decide (h c ∉ names s)) else none) := by
+/-- the digest name does not exist, staging on the store's file system -/
+def afterSame (cfg : Cfg N C) (key : K) (c : C) (s : St K N C) : Nat → St K N C
+  | 0 => s
+  | 1 => ⟨(s.fresh, cfg.e) :: s.stage, s.incoming, s.store, s.prime, s.fresh + 1, s.dir⟩
+  | 2 | 3 | 4 => ⟨(s.fresh, c) :: s.stage, s.incoming, s.store, s.prime, s.fresh + 1, s.dir⟩
+  | 5 => ⟨(s.fresh, c) :: s.stage, s.incoming, s.store, s.prime, s.fresh + 1, true⟩
+  | 6 => ⟨s.stage, (s.fresh, c) :: s.incoming, s.store, s.prime, s.fresh + 1, true⟩
+  | 7 => ⟨s.stage, s.incoming, put s.store (cfg.h c) c, s.prime, s.fresh + 1, true⟩
+  | _ => ⟨s.stage, s.incoming, put s.store (cfg.h c) c, put s.prime key (cfg.h c), s.fresh + 1, true⟩
+
+/-- the digest name does not exist, staging on another file system -/
+def afterXfs (cfg : Cfg N C) (key : K) (c : C) (s : St K N C) : Nat → St K N C
+  | 0 => s
+  | 1 => ⟨(s.fresh, cfg.e) :: s.stage, s.incoming, s.store, s.prime, s.fresh + 1, s.dir⟩
+  | 2 | 3 | 4 => ⟨(s.fresh, c) :: s.stage, s.incoming, s.store, s.prime, s.fresh + 1, s.dir⟩
+  | 5 => ⟨(s.fresh, c) :: s.stage, s.incoming, s.store, s.prime, s.fresh + 1, true⟩
+  | 6 => ⟨(s.fresh, c) :: s.stage, (s.fresh, cfg.e) :: s.incoming, s.store, s.prime, s.fresh + 1, true⟩
+  | 7 => ⟨(s.fresh, c) :: s.stage, (s.fresh, cfg.t c) :: s.incoming, s.store, s.prime, s.fresh + 1, true⟩
+  | 8 => ⟨(s.fresh, c) :: s.stage, (s.fresh, c) :: s.incoming, s.store, s.prime, s.fresh + 1, true⟩
+  | 9 => ⟨s.stage, (s.fresh, c) :: s.incoming, s.store, s.prime, s.fresh + 1, true⟩
+  | 10 => ⟨s.stage, s.incoming, put s.store (cfg.h c) c, s.prime, s.fresh + 1, true⟩
+  | _ => ⟨s.stage, s.incoming, put s.store (cfg.h c) c, put s.prime key (cfg.h c), s.fresh + 1, true⟩
+
+def after (cfg : Cfg N C) (key : K) (c : C) (s : St K N C) (b : Nat) : St K N C :=
+  if cfg.h c ∈ names s then afterEx cfg key c s b
+  else if cfg.xfs then afterXfs cfg key c s b else afterSame cfg key c s b
+
+theorem rm_stage {h : C → N} {s : St K N C} (hs : Inv h s) : rm s.stage s.fresh = s.stage :=
+  rm_of_fresh hs.below
+
+theorem rm_incoming {h : C → N} {s : St K N C} (hs : Inv h s) : rm s.incoming s.fresh = s.incoming :=
+  rm_of_fresh hs.belowInc
+
+
+/-- Symbolic execution of every crash budget of the regenerated program in both configurations. -/
+theorem runUpd_closed (cfg : Cfg N C) (key : K) (c : C) (s : St K N C) (hs : Inv cfg.h s) (b : Nat) :
+    runUpd cfg program key c b s
+      = (after cfg key c s b,
+         if steps cfg.xfs (decide (cfg.h c ∈ names s)) ≤ b then some (decide (cfg.h c ∉ names s)) else none) := by
   have hm' : names s = s.store.map Prod.fst := rfl
-  rcases b with _|_|_|_|_|_|_|_|b
+  have r1 := rm_stage hs
+  have r2 := rm_incoming hs
+  obtain ⟨h, e, t, xfs⟩ := cfg
+  cases xfs
   all_goals by_cases hm : h c ∈ s.store.map Prod.fst
-  all_goals simp [runUpd, program, List.take, runInstrs, exec, lookup_put, act, names_mk, hm, after, hm']
-
-theorem program_length : program.length = 8 := rfl
-
-theorem stage_rm_put {s : St K N C} {h : C → N} (hs : Inv h s) (e c : C) :
-    rm (put ((s.fresh, e) :: s.stage) s.fresh c) s.fresh = s.stage := by
-  have h1 : rm s.stage s.fresh = s.stage := rm_of_fresh hs.below
-  have h2 : rm ((s.fresh, e) :: s.stage) s.fresh = s.stage := by
-    rw [← h1]; simp [rm]
-  simp only [put, h2]
-  rw [← h1]; simp [rm]
-
-theorem stage_put {s : St K N C} {h : C → N} (hs : Inv h s) (e c : C) :
-    put ((s.fresh, e) :: s.stage) s.fresh c = (s.fresh, c) :: s.stage := by
-  have h1 : rm s.stage s.fresh = s.stage := rm_of_fresh hs.below
-  have h2 : rm ((s.fresh, e) :: s.stage) s.fresh = s.stage := by
-    rw [← h1]; simp [rm]
-  simp only [put, h2]
+  all_goals rcases b with _|_|_|_|_|_|_|_|_|_|_|_|_|_|b
+  all_goals simp [runUpd, program, expand, expandAct, runB, skips, exec, doAct, writeDst, put, names_mk, hm,
+    after, afterEx, afterSame, afterXfs, hm', r1, r2, steps]
 
 theorem below_succ {st : List (Nat × C)} {fr : Nat} (hb : ∀ f ∈ st, f.1 < fr) (x : C) :
     ∀ f ∈ (fr, x) :: st, f.1 < fr + 1 := by
@@ -169,103 +199,118 @@ theorem below_succ {st : List (Nat × C)} {fr : Nat} (hb : ∀ f ∈ st, f.1 < f
 theorem below_mono {st : List (Nat × C)} {fr : Nat} (hb : ∀ f ∈ st, f.1 < fr) :
     ∀ f ∈ st, f.1 < fr + 1 := fun f hf => Nat.lt_succ_of_lt (hb f hf)
 
-/-- the store after the `place` micro-step: unchanged when the digest name was present,
-    otherwise the staged bytes under the digest name -/
-theorem inv_placed {h : C → N} {s : St K N C} (hs : Inv h s) (c : C) (st : List (Nat × C)) (fr : Nat)
-    (hb : ∀ f ∈ st, f.1 < fr) :
-    Inv h ⟨st, if h c ∈ names s then s.store else put s.store (h c) c, s.prime, fr⟩ ∧
-      h c ∈ (if h c ∈ names s then s.store else put s.store (h c) c).map Prod.fst := by
-  by_cases hm : h c ∈ names s
+/-- closes the side goals of `inv_shape` for the closed-form states -/
+macro "shape_side" hs:ident hm:ident : tactic => `(tactic|
+  first
+    | exact below_mono ($hs).below | exact below_mono ($hs).belowInc
+    | exact below_succ ($hs).below _ | exact below_succ ($hs).belowInc _
+    | exact Or.inl rfl | exact Or.inr rfl
+    | exact Or.inr ⟨rfl, $hm⟩
+    | exact Or.inr ⟨rfl, by simp [put]⟩)
+
+/-- `Inv` holds at every micro-step boundary of an update, in both configurations. -/
+theorem inv_after (cfg : Cfg N C) {s : St K N C} (hs : Inv cfg.h s) (key : K) (c : C) (b : Nat) :
+    Inv cfg.h (after cfg key c s b) := by
+  unfold after
+  by_cases hm : cfg.h c ∈ names s
   · simp only [hm, if_true]
-    exact ⟨inv_stage hs st fr hb, hm⟩
+    rcases b with _|_|_|_|_|_|b
+    · exact hs
+    all_goals (simp only [afterEx]; apply inv_shape hs c key <;> shape_side hs hm)
   · simp only [hm, if_false]
-    have := inv_rename (inv_stage hs st fr hb) (h c) c rfl st hb
-    exact ⟨this, by simp [put]⟩
+    have hm2 : cfg.h c ∈ (put s.store (cfg.h c) c).map Prod.fst := by simp [put]
+    cases hx : cfg.xfs
+    · simp only [Bool.false_eq_true, if_false]
+      rcases b with _|_|_|_|_|_|_|_|b
+      · exact hs
+      all_goals (simp only [afterSame]; apply inv_shape hs c key <;> shape_side hs hm2)
+    · simp only [if_true]
+      rcases b with _|_|_|_|_|_|_|_|_|_|_|b
+      · exact hs
+      all_goals (simp only [afterXfs]; apply inv_shape hs c key <;> shape_side hs hm2)
 
-/-- `Inv` holds at every micro-step boundary of an update (hence after a crash anywhere). -/
-theorem inv_after {h : C → N} {s : St K N C} (hs : Inv h s) (e : C) (key : K) (c : C) (k : Nat) :
-    Inv h (after h e key c s k) := by
-  have hst := stage_rm_put hs e c
-  have hp := stage_put hs e c
-  rcases k with _|_|_|_|_|_|k
-  · exact hs
-  · exact inv_stage hs _ _ (below_succ hs.below e)
-  · simp only [after, hp]; exact inv_stage hs _ _ (below_succ hs.below c)
-  · simp only [after, hp]; exact inv_stage hs _ _ (below_succ hs.below c)
-  · simp only [after, hp]; exact inv_stage hs _ _ (below_succ hs.below c)
-  · simp only [after, hst]; exact (inv_placed hs c _ _ (below_mono hs.below)).1
-  · simp only [after, hst]
-    obtain ⟨h1, h2⟩ := inv_placed hs c s.stage (s.fresh + 1) (below_mono hs.below)
-    exact inv_record h1 key (h c) h2
+theorem inv_runUpd (cfg : Cfg N C) {s : St K N C} (hs : Inv cfg.h s) (key : K) (c : C) (b : Nat) :
+    Inv cfg.h (runUpd cfg program key c b s).1 := by
+  rw [runUpd_closed cfg key c s hs]; exact inv_after cfg hs key c b
 
-theorem inv_runUpd {h : C → N} {s : St K N C} (hs : Inv h s) (e : C) (key : K) (c : C) (b : Nat) :
-    Inv h (runUpd h e program key c b s).1 := by
-  rw [runUpd_closed]; exact inv_after hs e key c b
-
-theorem inv_apply {h : C → N} {s : St K N C} (hs : Inv h s) (e : C) (op : Op K N C) :
-    Inv h (apply h e program s op).1 := by
+theorem inv_apply (cfg : Cfg N C) {s : St K N C} (hs : Inv cfg.h s) (op : Op K N C) :
+    Inv cfg.h (apply cfg program s op).1 := by
   cases op with
-  | upd key c b => exact inv_runUpd hs e key c b
+  | upd key c b => exact inv_runUpd cfg hs key c b
   | del key => exact inv_del hs key
   | purge visit => exact inv_purge hs visit
 
 /-- induction over the operation list: the invariant holds after every history -/
-theorem inv_run {h : C → N} (e : C) (ops : List (Op K N C)) :
-    ∀ {s : St K N C}, Inv h s → Inv h (run h e program s ops).1 := by
+theorem inv_run (cfg : Cfg N C) (ops : List (Op K N C)) :
+    ∀ {s : St K N C}, Inv cfg.h s → Inv cfg.h (run cfg program s ops).1 := by
   induction ops with
   | nil => intro s hs; exact hs
-  | cons op ops ih => intro s hs; exact ih (inv_apply hs e op)
+  | cons op ops ih => intro s hs; exact ih (inv_apply cfg hs op)
 
-theorem run_append (h : C → N) (e : C) (prog : List Instr) (a b : List (Op K N C)) (s : St K N C) :
-    run h e prog s (a ++ b) =
-      ((run h e prog (run h e prog s a).1 b).1,
-       (run h e prog s a).2 ++ (run h e prog (run h e prog s a).1 b).2) := by
+theorem run_append (cfg : Cfg N C) (prog : List Instr) (a b : List (Op K N C)) (s : St K N C) :
+    run cfg prog s (a ++ b) =
+      ((run cfg prog (run cfg prog s a).1 b).1,
+       (run cfg prog s a).2 ++ (run cfg prog (run cfg prog s a).1 b).2) := by
   induction a generalizing s with
   | nil => simp [run]
   | cons op a ih => simp [run, ih]
 
-theorem run_flags_length (h : C → N) (e : C) (prog : List Instr) (ops : List (Op K N C)) :
-    ∀ s : St K N C, (run h e prog s ops).2.length = ops.length := by
+theorem run_flags_length (cfg : Cfg N C) (prog : List Instr) (ops : List (Op K N C)) :
+    ∀ s : St K N C, (run cfg prog s ops).2.length = ops.length := by
   induction ops with
   | nil => intro s; rfl
   | cons op ops ih => intro s; simp [run, ih]
 
-/-! ### staged leftovers -/
+/-! ### garbage: where it may live and how much -/
 
-theorem stage_after {h : C → N} {s : St K N C} (hs : Inv h s) (e : C) (key : K) (c : C) (k : Nat) :
-    (after h e key c s k).stage =
-      if k = 0 ∨ 5 ≤ k then s.stage
-      else (s.fresh, if k = 1 then e else c) :: s.stage := by
-  have hst := stage_rm_put hs e c
-  have hp := stage_put hs e c
-  have hr : rm ((s.fresh, c) :: s.stage) s.fresh = s.stage := by rw [← hp]; exact hst
-  rcases k with _|_|_|_|_|_|k <;> simp [after, hp, hr]
+/-- After `b` micro-steps of an update at most one more file is staged and at most one more file lies
+    in `incoming`, and none when the update ran to its end. -/
+theorem garbage_after (cfg : Cfg N C) (key : K) (c : C) (s : St K N C) (b : Nat) :
+    let g := if steps cfg.xfs (decide (cfg.h c ∈ names s)) ≤ b then 0 else 1
+    (after cfg key c s b).stage.length ≤ s.stage.length + g ∧
+      (after cfg key c s b).incoming.length ≤ s.incoming.length + g := by
+  unfold after
+  by_cases hm : cfg.h c ∈ names s
+  · simp only [hm, if_true, decide_true, steps]
+    rcases b with _|_|_|_|_|_|_|_|b <;> simp [afterEx]
+  · simp only [hm, if_false, decide_false, steps]
+    cases hx : cfg.xfs
+    · simp only [Bool.false_eq_true, if_false]
+      rcases b with _|_|_|_|_|_|_|_|_|_|b <;> simp [afterSame]
+    · simp only [if_true]
+      rcases b with _|_|_|_|_|_|_|_|_|_|_|_|_|b <;> simp [afterXfs]
 
-theorem stage_apply_le {h : C → N} {s : St K N C} (hs : Inv h s) (e : C) (op : Op K N C) :
-    (apply h e program s op).1.stage.length ≤
-      s.stage.length + (if op.crashed program then 1 else 0) := by
+theorem garbage_apply (cfg : Cfg N C) {s : St K N C} (hs : Inv cfg.h s) (op : Op K N C) :
+    let r := apply cfg program s op
+    r.1.stage.length ≤ s.stage.length + silent [op] [r.2] ∧
+      r.1.incoming.length ≤ s.incoming.length + silent [op] [r.2] := by
   cases op with
   | upd key c b =>
-    simp only [apply, runUpd_closed, stage_after hs, Op.crashed, program_length]
-    by_cases h0 : b = 0 ∨ 5 ≤ b
-    · simp [h0]
-    · have : b < 8 := by omega
-      simp [h0, this]
-  | del key => simp [apply, Op.crashed]
-  | purge visit => simp only [apply, Op.crashed]; unfold purge; split <;> simp
+    have := garbage_after cfg key c s b
+    simp only [apply, runUpd_closed cfg key c s hs]
+    by_cases hb : steps cfg.xfs (decide (cfg.h c ∈ names s)) ≤ b
+    · simpa [hb, silent] using this
+    · simpa [hb, silent] using this
+  | del key => simp [apply, silent]
+  | purge visit => simp only [apply, silent]; unfold purge; split <;> simp
 
-theorem stage_run_le {h : C → N} (e : C) (ops : List (Op K N C)) :
-    ∀ {s : St K N C}, Inv h s →
-      (run h e program s ops).1.stage.length ≤
-        s.stage.length + (ops.filter (Op.crashed program)).length := by
+theorem silent_cons (op : Op K N C) (o : Option Bool) (ops : List (Op K N C)) (fl : List (Option Bool)) :
+    silent (op :: ops) (o :: fl) = silent [op] [o] + silent ops fl := by
+  cases op <;> cases o <;> simp [silent] <;> omega
+
+theorem garbage_run (cfg : Cfg N C) (ops : List (Op K N C)) :
+    ∀ {s : St K N C}, Inv cfg.h s →
+      (run cfg program s ops).1.stage.length ≤ s.stage.length + silent ops (run cfg program s ops).2 ∧
+      (run cfg program s ops).1.incoming.length ≤ s.incoming.length + silent ops (run cfg program s ops).2 := by
   induction ops with
-  | nil => intro s _; simp [run]
+  | nil => intro s _; simp [run, silent]
   | cons op ops ih =>
     intro s hs
-    have h1 := ih (inv_apply hs e op)
-    have h2 := stage_apply_le hs e op
-    simp only [run, List.filter_cons]
-    by_cases hc : op.crashed program <;> simp [hc] at h2 ⊢ <;> omega
+    have h1 := ih (inv_apply cfg hs op)
+    have h2 := garbage_apply cfg hs op
+    simp only [run]
+    rw [silent_cons]
+    constructor <;> omega
 
 /-! ### the novelty flag -/
 
